@@ -199,7 +199,10 @@ async fn run_hb_stall(log: &Log, seed: u64, i: u64) {
     // the next keep-alive request gets only its first k bytes through
     let k = r.range(1, 6);
     rg.out.block_writes_at(rg.out.written() + k);
-    let stall = iv + iv / 2 + r.below(iv / 2 + 1);          // longer than one interval, shorter than the timeout
+    // longer than one interval and shorter than the timeout - or longer than the timeout: then the monitor may end the
+    // session (nothing more is written), but it must not stay open with a torn frame on the transport
+    let beyond = r.chance(1, 3);
+    let stall = if beyond { to + iv + r.below(iv) } else { iv + iv / 2 + r.below(iv / 2 + 1) };
     let mut t = 0u64;
     while rg.out.with(|p| p.blocked_hits) == 0 && t < 3 * iv { tokio::time::sleep(Duration::from_secs(1)).await; quiesce().await; t += 1; }
     tokio::time::sleep(Duration::from_secs(stall)).await;
@@ -207,9 +210,14 @@ async fn run_hb_stall(log: &Log, seed: u64, i: u64) {
     rg.out.unblock_writes();
     quiesce().await;
     observe(log, &rg.out, &mut obs, false);
-    send(r.range(101, 300) as usize, &mut obs).await;
-    quiesce().await;
-    observe(log, &rg.out, &mut obs, true);
+    if rg.sess.is_closed() {
+        // ended by its monitor: whatever was cut off at the end of the transport belongs to a dead session
+        observe(log, &rg.out, &mut obs, false);
+    } else {
+        send(r.range(101, 300) as usize, &mut obs).await;
+        quiesce().await;
+        observe(log, &rg.out, &mut obs, true);
+    }
     ev!(log, "end", panics: PANICS.load(Ordering::SeqCst) - panics0, hung: 0);
     let _ = tokio::time::timeout(Duration::from_secs(5), rg.sess.close()).await;
     quiesce().await;
@@ -273,6 +281,14 @@ async fn run_parallel(log: &'static Log, seed: u64, i: u64) {
 
 pub fn run(args: &Args, log: &Log) -> Result<(), String> {
     std::panic::set_hook(Box::new(|_| { PANICS.fetch_add(1, Ordering::SeqCst); }));
+    if args.extra.get("part").map(|s| s.as_str()) == Some("hbstall") {
+        // only the keep-alive stall scenarios (shared with C01: a torn keep-alive frame loses bytes of open streams)
+        let rt = rig::paused_rt();
+        let local = tokio::task::LocalSet::new();
+        local.block_on(&rt, async { for i in 0..(if args.tier == "thorough" { 400 } else { 90 }) { run_hb_stall(log, args.seed.wrapping_mul(613).wrapping_add(i), i).await; } });
+        let _ = std::panic::take_hook();
+        return Ok(());
+    }
     let rt = rig::paused_rt();
     let local = tokio::task::LocalSet::new();
     let sched = Sched::install();
